@@ -43,3 +43,42 @@ def c15_datalines_lookbehind(src, message):
     if first_b is None or T.tt_name.get(cb.toks[first_b].type) != "DatalinesStart":
         return False
     return k == (len(ca.toks) - 1) + first_b
+
+
+def _workspace_view(src):
+    """Python-level view (Token/Error dicts) computed from the *workspace* crate through implrun's bulk rows"""
+    import impl, pybind
+    c = impl.run_lex("release", [src], mode="lexa", jobs=1)[0]
+    if c.outcome != "ok" or not c.rows:
+        return None
+    tn, en = pybind.py_names()
+    toks = []
+    for r, t in zip(c.rows, c.toks):
+        # R row: idx chan type start stop line col eline ecol payload
+        p = t.payload
+        pl = None if p is None else (p[1] if p[0] == "I" else (("f64", p[1]) if p[0] == "F" else [p[1], p[2]]))
+        toks.append(dict(zip(tn, [int(r[1]), int(r[2]), int(r[0]), int(r[3]), int(r[4]), int(r[5]), int(r[6]), int(r[7]), int(r[8]), pl])))
+    errs = [dict(zip(en, [e.kind, e.byte, e.char, e.line, e.col, e.last])) for e in c.errs]
+    return toks, errs, c.lit
+
+
+def c20_registry_datalines4_terminator(src, message):
+    """KF-2: the published crate the binding links (sas-lexer 1.0.0-beta.3) still has the defect fixed in the
+    workspace crate by 1aa9991: an unterminated `datalines4;` block whose text ends with fewer than four ';'
+    swallows what follows the ';' (line feeds included) into the closing token. Instance iff: the source has a
+    datalines4/cards4/lines4 statement with no ';;;;' after it, the failure is a line/column mismatch, and the
+    workspace crate's result for the same source satisfies the same contract."""
+    import re, pybind
+    if not message.startswith("Python-level contract: token") or ("line/column" not in message and "end_line/end_column" not in message):
+        return False
+    m = re.search(r"(?i)(?:datalines|cards|lines)4\s*;", src)
+    if not m or ";;;;" in src[m.end():]:
+        return False
+    v = _workspace_view(src)
+    if v is None:
+        return False
+    # the workspace crate has more token types than the linked one: judge positions only, with its own enum tables
+    tt = {t["token_type"]: "EOF" if i == len(v[0]) - 1 else "x" for i, t in enumerate(v[0])}
+    ch = {0: "DEFAULT", 1: "HIDDEN", 2: "COMMENT"}
+    ek = {e["error_kind"]: "x" for e in v[1]}
+    return not pybind.contract(src, v[0], v[1], v[2], (tt, ch, ek))
